@@ -15,7 +15,7 @@ CONSTANTS
   Slice = 0
   MaxP = 1
   MaxE = 1
-  Deviations = {"LaterPatternReplacesException", "ExceptionsSplitOnLinesOnly"}
+  Deviations = {"LaterPatternReplacesException"}
   PatTexts <- MCPatTexts
   ExcTexts <- MCExcTextsA
   ExcListTexts <- MCExcListsSmall
